@@ -9,11 +9,30 @@
     - and, on a connected overlap graph, ANY two assignments with zero residual
       sums (any two minimisers, C05) give the same master curve measured from
       any reference level: whichever choice the code makes, the curve is the same.
-    Partial: that the greedy component search returns exactly the reachability
-    classes (main body fully included, nothing else) is checked by correspondence
-    and an independent union-find oracle, not proved. *)
-From Spowtd Require Import Model.FitOffsets Proofs.QSum Proofs.FitOffsetsSpec Proofs.InvarianceSpec.
-From Coq Require Import Permutation.
+    Main body (last sentence of the property), proved in Proofs/ComponentsSpec.v
+    for EVERY mapping with distinct level keys (any number of levels, any series
+    sets), about the executable model of get_connected_components /
+    split_mapping_by_keys / the tail of get_series_time_offsets
+    (Model/Components.v):
+    - [level_linked sah h h']: reflexive-transitive closure of "levels h and h'
+      share a series"; the groups built by the greedy fold are exactly its
+      classes (sound and complete), they partition the levels, their series sets
+      are pairwise disjoint and are the unions of their levels' series;
+      [components] = these classes, longest first, ties in dict order;
+    - what [offsets_from_mapping] fits is ONE class of maximal level count (levels
+      crossed by >= 2 intervals); the intervals that get an offset are exactly
+      those crossing a level of that class: every interval linked to the main body
+      by a chain of overlaps is included, no other is placed;
+    - the entries handed to find_offsets form a [connected] overlap graph, so the
+      hypothesis of C05_unique_up_to_shift / C08_master_curve_choice_free is
+      discharged for the model of the code (C08_main_body_offsets_unique).
+    Still by correspondence only: that Model/Components.v computes what the
+    Python computes (sampled, every run); ties between equally large components
+    are resolved by dict insertion order, which the model reproduces and the
+    theorems state ("a class of maximal size", the first such in dict order). *)
+From Spowtd Require Import Model.Components Proofs.QSum Proofs.FitOffsetsSpec Proofs.InvarianceSpec
+  Proofs.ComponentsSpec.
+From Coq Require Import Permutation Relations Sorted.
 
 Theorem C08_order_irrelevant : forall E E' x, Permutation E E' ->
   (forall h, head_mean E' x h == head_mean E x h) /\
@@ -47,3 +66,100 @@ Theorem C08_master_curve_choice_free : forall E x y,
     head_mean E y h - head_mean E y h' == head_mean E x h - head_mean E x h'.
 Proof. exact master_choice_free. Qed.
 Print Assumptions C08_master_curve_choice_free.
+
+(** ** The main body: the greedy component search returns the reachability
+    classes.  [sah] is the dict level -> set of series (any list with distinct
+    keys); [cc_groups] the dict [groups] at the end of the loop of
+    get_connected_components; [components] its return value. *)
+Theorem C08_components_are_reachability_classes : forall sah : list (Z * list nat),
+  NoDup (map fst sah) ->
+  let gs := cc_groups sah in
+  Permutation (flat_map fst gs) (map fst sah) /\ NoDup (flat_map fst gs) /\
+  (forall g, In g gs -> fst g <> []) /\
+  (forall g1 g2 s, In g1 gs -> In g2 gs -> In s (snd g1) -> In s (snd g2) -> g1 = g2) /\
+  (forall g s, In g gs -> (In s (snd g) <-> exists h, In h (fst g) /\ at_level sah h s)) /\
+  (forall g h, In g gs -> In h (fst g) -> forall h', In h' (fst g) <-> level_linked sah h h') /\
+  (forall g1 g2 h1 h2, In g1 gs -> In g2 gs -> In h1 (fst g1) -> In h2 (fst g2) ->
+     (g1 = g2 <-> level_linked sah h1 h2)) /\
+  Permutation (components sah) (map fst gs) /\
+  StronglySorted by_length_desc (components sah) /\
+  (forall n, filter (fun ks => Nat.eqb (length ks) n) (components sah)
+             = filter (fun ks => Nat.eqb (length ks) n) (map fst gs)) /\
+  (forall ks, NoDup ks ->
+     (reach_class sah ks <-> exists ks', In ks' (components sah) /\ Permutation ks ks')).
+Proof. exact components_are_reachability_classes. Qed.
+Print Assumptions C08_components_are_reachability_classes.
+
+(** [hm] is the head mapping (level -> list of (interval, crossing value));
+    [offsets_from_mapping] what get_series_time_offsets does with it; [sids] the
+    intervals that receive an offset, [levels] the levels of the returned mapping. *)
+Theorem C08_main_body_complete_and_exclusive : forall (hm : head_mapping) sids offs levels,
+  NoDup (map fst hm) ->
+  offsets_from_mapping hm = Ok (sids, offs, levels) ->
+  let sah := series_at_head hm in
+  NoDup levels /\ reach_class sah levels /\
+  (exists rest, exists main, components sah = main :: rest /\ Permutation levels main) /\
+  (forall ks, reach_class sah ks -> NoDup ks -> (length ks <= length levels)%nat) /\
+  (forall h, In h levels -> exists cs, In (h, cs) hm /\ (1 < length cs)%nat) /\
+  (forall s, In s sids <-> exists h, In h levels /\ crosses hm h s) /\
+  (forall h0 h s, In h0 levels -> level_linked sah h0 h -> crosses hm h s -> In s sids) /\
+  (forall s, In s sids -> forall h0, In h0 levels ->
+     exists h, level_linked sah h0 h /\ crosses hm h s).
+Proof. exact main_body_complete_and_exclusive. Qed.
+Print Assumptions C08_main_body_complete_and_exclusive.
+
+(** The entries that find_offsets receives form a connected overlap graph. *)
+Theorem C08_main_body_connected : forall (hm : head_mapping) sids offs levels,
+  NoDup (map fst hm) ->
+  offsets_from_mapping hm = Ok (sids, offs, levels) ->
+  exists main rest,
+    components (series_at_head hm) = main :: rest /\
+    find_offsets (main_sub hm main) = Ok (sids, offs) /\
+    levels = map fst (drop_single (main_sub hm main)) /\
+    connected (entries_of (drop_single (main_sub hm main))).
+Proof. exact main_body_connected_graph. Qed.
+Print Assumptions C08_main_body_connected.
+
+(** Hence, with no connectivity hypothesis: the offsets of the main body have
+    zero residual sums and minimise the spread, every other minimiser differs by
+    one common constant, and every zero-residual assignment gives the same
+    master curve measured from any reference level. *)
+Theorem C08_main_body_offsets_unique : forall (hm : head_mapping) sids offs levels,
+  NoDup (map fst hm) ->
+  offsets_from_mapping hm = Ok (sids, offs, levels) ->
+  exists main, find_offsets (main_sub hm main) = Ok (sids, offs) /\
+    let E := entries_of (drop_single (main_sub hm main)) in
+    let x := assignment sids offs in
+    (forall s, In s sids <-> In s (ids E)) /\
+    (forall s, resid_sum E x s == 0) /\
+    (forall y, objective E x <= objective E y) /\
+    (forall y, objective E y == objective E x ->
+       forall s s', In s sids -> In s' sids -> y s - x s == y s' - x s') /\
+    (forall y, (forall s, In s sids -> resid_sum E y s == 0) ->
+       forall h h' c c', In c (at_head E h) -> In c' (at_head E h') ->
+         head_mean E y h - head_mean E y h' == head_mean E x h - head_mean E x h').
+Proof. exact main_body_offsets_unique. Qed.
+Print Assumptions C08_main_body_offsets_unique.
+
+(** Non-vacuity: seven levels; intervals 0,1,2 overlap on levels 5,6,7 (the main
+    body, three levels), intervals 3,4 on levels 20,21 (a smaller component, left
+    out), interval 5 crosses level 30 alone (isolated, left out), level 8 is
+    crossed by interval 2 alone (uninformative, not a level of the result). *)
+Definition C08_example_hm : head_mapping :=
+  [(5%Z, [(0%nat, 1); (1%nat, 4)]); (20%Z, [(3%nat, 2); (4%nat, 3)]);
+   (6%Z, [(0%nat, 2); (1%nat, 5); (2%nat, 9)]); (30%Z, [(5%nat, 1)]);
+   (7%Z, [(1%nat, 7); (2%nat, 10)]); (21%Z, [(3%nat, 4); (4%nat, 6)]); (8%Z, [(2%nat, 3)])].
+
+Example C08_example_keys : NoDup (map fst C08_example_hm).
+Proof. repeat constructor; simpl; intuition discriminate. Qed.
+
+Example C08_example_components :
+  cc_groups (series_at_head C08_example_hm)
+  = [([7%Z; 6%Z; 5%Z], [1%nat; 2%nat; 0%nat]); ([21%Z; 20%Z], [3%nat; 4%nat])]
+  /\ components (series_at_head C08_example_hm) = [[7%Z; 6%Z; 5%Z]; [21%Z; 20%Z]].
+Proof. split; vm_compute; reflexivity. Qed.
+
+Example C08_example_main_body :
+  offsets_from_mapping C08_example_hm
+  = Ok ([0%nat; 1%nat; 2%nat], [20 # 3; 53 # 15; 0], [5%Z; 6%Z; 7%Z]).
+Proof. vm_compute. reflexivity. Qed.
